@@ -629,6 +629,18 @@ pub fn rich_file(c: &mut Choice, o: &RichOpts) -> Rich {
                 f.secs[i].hdr.sh_info = model.defs.len() as u32;
                 f.secs[i].align = 4;
             }
+            // a stray extra version-index section AFTER the other version sections (different content)
+            if c.chance(40) {
+                let mut alt = s.versym.clone();
+                for b in alt.iter_mut() {
+                    *b ^= 0x03;
+                }
+                alt.extend_from_slice(&[2, 0, 3, 0]);
+                let i = f.add_sec(b".gnu.version.dup", SHT_GNU_VERSYM, alt);
+                kinds.push(Kind::Versym);
+                f.secs[i].hdr.sh_entsize = 2;
+                f.secs[i].align = 2;
+            }
         }
         // --- static symbols
         if has(4) {
